@@ -1,0 +1,32 @@
+//go:build verif
+// +build verif
+
+package cache
+
+// This file is compiled only with -tags verif. It gives the verification harness read access to
+// internal state and a way to run one cleanup cycle synchronously. It adds no behaviour to regular builds.
+
+// VerifKeyLocks returns the number of key locks currently held.
+func (f *Failover) VerifKeyLocks() int {
+	f.lock.Lock()
+	defer f.lock.Unlock()
+
+	return len(f.keyLocks)
+}
+
+// VerifKeyLocks returns the number of key locks currently held.
+func (f *FailoverOf[V]) VerifKeyLocks() int {
+	f.lock.Lock()
+	defer f.lock.Unlock()
+
+	return len(f.keyLocks)
+}
+
+// VerifCleanup runs one cleanup cycle (delete expired, then evict) synchronously.
+func (c *ShardedMap) VerifCleanup() { c.t.invokeCleanup() }
+
+// VerifCleanup runs one cleanup cycle (delete expired, then evict) synchronously.
+func (c *SyncMap) VerifCleanup() { c.t.invokeCleanup() }
+
+// VerifCleanup runs one cleanup cycle (delete expired, then evict) synchronously.
+func (c *ShardedMapOf[V]) VerifCleanup() { c.t.invokeCleanup() }
